@@ -7,7 +7,7 @@ PROPS = ["C26"]
 READY = True
 CLAIMS = {
  "C26": dict(technique="TLC model checking of ReplFanout.tla (Go channel and map semantics of the replication fan-out, one action per hook-to-hook segment of the stream handlers and of the fan-out goroutine) + TLC behaviours forced on the real GRPCReplicationServer / Sender goroutines by the gate player + free-running connect/disconnect stress under the race detector",
-             text="ReplFanout.tla models GetWALStream (insert into the stream map, serve, notice the dead stream, remove the entry) and Sender.Run / SendReplicationMessage (range over the map, send per replica) with Go semantics (send on a closed channel panics, a map written while iterated is a race). TLC checks exhaustively for 2 replicas and 3 transactions NoSendOnClosed, NoMapRace, ReceivedInCommitOrder, ConnectedGetAll and the action property PrefixStable for the synchronised design, and shows that the unsynchronised design (deviation NoLock, the tree before fix d0ac6bd) violates the first two. TLC-simulated behaviours (connects, stream failures, commits, fan-out steps in every order) are executed by the real goroutines in TLC's order with in-process fake gRPC streams (two replicas behind ONE IP address, distinct ports); at the end each replica's received sequence must be in commit order and contain every transaction committed while it was connected and healthy; a panic of the sender goroutine, a hang or a race report is a violation.",
+             text="ReplFanout.tla models GetWALStream (insert into the stream map, serve, notice the dead stream, remove the entry) and Sender.Run / SendReplicationMessage (range over the map, send per replica) with Go semantics (send on a closed channel panics, a map written while iterated is a race). TLC checks exhaustively for 2 replicas and 3 transactions NoSendOnClosed, NoMapRace, ReceivedInCommitOrder, ConnectedGetAll and the action property PrefixStable for the synchronised design, and shows that the unsynchronised design (deviation NoLock, the tree before fix d0ac6bd) violates the first two. TLC-simulated behaviours (connects, stream failures, commits, fan-out steps in every order) are executed by the real goroutines in TLC's order with in-process fake gRPC streams (two replicas behind ONE IP address, distinct ports); at the end each replica's received sequence must be in commit order and contain every transaction committed while it was connected and healthy; a panic of the sender goroutine, a hang or a race report is a violation. ReplStall.tla adds what the hand-over abstraction hides - bounded stream channels, the bounded sender channel, stalled replicas, the `done` signal and the lock order of the tear-down: TLC checks NeverStuck and, under fairness, the liveness properties MasterProgresses and HealthyGetAll for the design, and finds the fan-out stuck for ever when the tear-down takes the map lock before it closes `done`; the environment steps of that counterexample (connect, stall, commits, connection failure - and the variant in which the stalled replica resumes) are run on the real goroutines with the commits scaled to the real channel sizes read from the tree: afterwards the sender must still accept transactions and the healthy replica must have every one of them in order.",
              note="Trusted: TLC, fake in-process streams instead of gRPC transport, the gate player. Bounded: 2 replicas, 3 transactions per behaviour; the order in which Go ranges over the stream map cannot be forced (schedules assuming the other order are drift). Stress: 3 replicas, 40 (quick) / 300 (thorough) transactions under -race."),
 }
 
